@@ -15,6 +15,7 @@ too.  Loops are not summarised: a path that enters the same block of the same
 frame a third time is cut (leaf kind 'cut').  Nothing of /repo is executed.
 """
 import copy
+import re
 
 from .facts import norm
 from .report import Undecided
@@ -806,8 +807,11 @@ class Machine:
                 st.frames.pop()
                 if fr.on_return is not None:
                     kind, buf, wrap = fr.on_return
-                    tm = buf.val if isinstance(buf.val, Tmpl) else Tmpl([Hole(Top("fmtbuf"))])
-                    ret = tm if wrap == "tmpl" else FmtArg(tm, "display")
+                    if kind == "some":
+                        ret = Agg("adt", "std::option::Option::Some", 1, [ret])
+                    else:
+                        tm = buf.val if isinstance(buf.val, Tmpl) else Tmpl([Hole(Top("fmtbuf"))])
+                        ret = tm if wrap == "tmpl" else FmtArg(tm, "display")
                 if not st.frames:
                     self.leaves.append(Leaf("return", ret, st))
                     return
@@ -948,7 +952,13 @@ class Machine:
                 if not is_other and len(vals) == 1:
                     cval = Const(bool(vals[0])) if dty == "bool" else (CharV(chr(vals[0])) if dty == "char" else Const(vals[0]))
                     s2.facts[key] = cval
-                    s2.label.append((show(v), show(cval)))
+                    if dty == "bool" and isinstance(v, Un) and v.op == "Not" and not is_top(v.a):
+                        # knowing !x is knowing x
+                        inner = Const(not bool(vals[0]))
+                        s2.facts[v.a.key()] = inner
+                        s2.label.append((show(v.a), show(inner)))
+                    else:
+                        s2.label.append((show(v), show(cval)))
                 elif not is_other:
                     s2.member[key] = list(vals)
                     s2.label.append((show(v), "in %s" % (vals,)))
@@ -989,6 +999,15 @@ class Machine:
             if m == "pushed":
                 return False
             return self._ret(st, fr, t, m)
+        # call of a closure value through the Fn* traits ("rust-call": the arguments arrive as one tuple)
+        decl = norm(c.get("decl") or "") if "indirect" not in c else ""
+        if re.search(r"ops::Fn(?:Once|Mut)?(?:<.*>>)?::call(?:_once|_mut)?$", decl) and len(args) == 2:
+            clo = strip_ref(args[0])
+            tup = strip_ref(args[1])
+            if isinstance(clo, Agg) and clo.kind == "closure" and clo.label in self.bodies and fr.depth < self.max_depth \
+                    and isinstance(tup, Agg) and tup.kind == "tuple":
+                self._push(st, fr, t, self.bodies[clo.label], [self._closure_self(clo)] + list(tup.fields))
+                return False
         body = self.bodies.get(name)
         if body is not None and self.inline(name) and fr.depth < self.max_depth:
             self._push(st, fr, t, body, args)
@@ -1026,6 +1045,12 @@ class Machine:
         self.assign(st, fr, t["dest"], v)
         self._goto(fr, t["target"])
         return False
+
+    def _closure_self(self, clo):
+        """first argument of a closure body: the closure by value (FnOnce closures) or a reference to it"""
+        b = self.bodies[clo.label]
+        ty = norm(b.locals[1]["ty"]) if len(b.locals) > 1 else ""
+        return Ref(Cell(clo)) if ty.startswith("&") else clo
 
     def _push(self, st, fr, t, body, args, on_return=None):
         nf = Frame(body.path, body.mir, fr.depth + 1)
@@ -1158,6 +1183,58 @@ class Machine:
                 return None
         elif name == "<I as std::iter::IntoIterator>::into_iter" and len(args) == 1:
             return args[0]
+        # ---- Option / String models
+        if name.startswith("std::option::Option::<T>::") and args:
+            meth = name.rsplit("::", 1)[1]
+            ov = strip_ref(args[0])
+            is_opt = isinstance(ov, Agg) and ov.kind == "adt" and ov.label in ("std::option::Option::Some", "std::option::Option::None")
+            if is_opt:
+                some = ov.label.endswith("::Some")
+                if meth == "is_some":
+                    return Const(some)
+                if meth == "is_none":
+                    return Const(not some)
+                if meth in ("unwrap", "expect", "unwrap_or_default", "unwrap_unchecked") and some:
+                    return ov.fields[0]
+                if meth in ("as_ref", "as_mut", "as_deref", "cloned", "copied", "take"):
+                    return args[0]
+                if meth == "map" and len(args) == 2:
+                    if not some:
+                        return ov
+                    clo = strip_ref(args[1])
+                    if isinstance(clo, Agg) and clo.kind == "closure" and clo.label in self.bodies and fr.depth < self.max_depth:
+                        self._push(st, fr, t, self.bodies[clo.label], [self._closure_self(clo), ov.fields[0]], on_return=("some", None, None))
+                        return "pushed"
+            elif meth in ("as_ref", "as_mut", "as_deref"):
+                return args[0]
+            return None
+        if name.endswith("Clone>::clone") and len(args) == 1:
+            v = strip_ref(args[0])
+            if isinstance(v, Agg):
+                return copy.deepcopy(v)
+            if isinstance(v, (Const, CharV, Tmpl, Unit)):
+                return v
+            return None
+        if name in ("std::string::String::with_capacity",):
+            return Tmpl([])
+        if name in ("std::string::String::push_str", "std::string::String::push") and len(args) == 2:
+            tgt = args[0]
+            piece = to_tmpl(args[1])
+            if isinstance(tgt, Ref) and isinstance(read_loc(tgt.cell, tgt.path), Tmpl) and not tgt.path:
+                tgt.cell.val = Tmpl(read_loc(tgt.cell, tgt.path).parts + piece.parts)
+                return Unit()
+            return None
+        if name in ("<std::string::String as std::ops::Add<&str>>::add",) and len(args) == 2:
+            a0 = strip_ref(args[0])
+            if isinstance(a0, Tmpl):
+                return Tmpl(a0.parts + to_tmpl(args[1]).parts)
+            return Tmpl(to_tmpl(a0).parts + to_tmpl(args[1]).parts)
+        if name in ("<std::string::String as std::ops::AddAssign<&str>>::add_assign",) and len(args) == 2:
+            tgt = args[0]
+            if isinstance(tgt, Ref) and isinstance(read_loc(tgt.cell, tgt.path), Tmpl) and not tgt.path:
+                tgt.cell.val = Tmpl(read_loc(tgt.cell, tgt.path).parts + to_tmpl(args[1]).parts)
+                return Unit()
+            return None
         # ---- exact, version-independent char predicates on constant characters
         if name.startswith("std::char::methods::<impl char>::") and args:
             cv = strip_ref(args[0])
